@@ -42,7 +42,7 @@ type Case struct {
 	SlowWrite bool `json:"slowwrite,omitempty"`
 }
 
-const deadline = 10 * time.Second
+const deadline = 30 * time.Second
 
 type prepared struct {
 	spec ReqSpec
